@@ -6,6 +6,9 @@ package bttest
 // reachable from a normal build.
 
 import (
+	"sync/atomic"
+	"time"
+
 	"cloud.google.com/go/bigtable"
 	btapb "cloud.google.com/go/bigtable/admin/apiv2/adminpb"
 	btpb "cloud.google.com/go/bigtable/apiv2/bigtablepb"
@@ -55,6 +58,37 @@ func (v *VerifService) ForceGC(name string) bool {
 		return false
 	}
 	tbl.gc(v.s.clock(), v.s.done, true)
+	return true
+}
+
+// Idle pretends that d has passed for the named table: its last-read and last-write stamps are
+// real time, which a check cannot wait out, so they are moved back by d (a write stamp of zero,
+// the mark a finished GC pass leaves, stays zero). It reports false if the table does not exist.
+func (v *VerifService) Idle(name string, d time.Duration) bool {
+	v.s.mu.Lock()
+	tbl, ok := v.s.tables[name]
+	v.s.mu.Unlock()
+	if !ok {
+		return false
+	}
+	atomic.AddInt64(&tbl.lastReadNanos, -int64(d))
+	if atomic.LoadInt64(&tbl.lastWriteNanos) != 0 {
+		atomic.AddInt64(&tbl.lastWriteNanos, -int64(d))
+	}
+	return true
+}
+
+// TryGC runs the pass the background loop runs on the named table: gc(now, done, force=false),
+// which collects only a table that has been written and then left alone long enough.
+// It reports false if the table does not exist.
+func (v *VerifService) TryGC(name string) bool {
+	v.s.mu.Lock()
+	tbl, ok := v.s.tables[name]
+	v.s.mu.Unlock()
+	if !ok {
+		return false
+	}
+	tbl.gc(v.s.clock(), v.s.done, false)
 	return true
 }
 
